@@ -56,6 +56,8 @@ class Run:
             if p.get("cls") == "machinery":
                 self.machinery.append(p)
             else:
+                if p.get("prop") is None:          # (a timed-out call reported by the engine without a property: it is this check's)
+                    p["prop"] = self.prop
                 self.problems.append(p)
         for k, v in rr["stats"].items():
             self.stats[k] = max(self.stats.get(k, 0), v) if k.endswith("_max") else self.stats.get(k, 0) + v
